@@ -424,7 +424,7 @@ def _generic(args, cfg, prop, tier, t0, known, open_f, quarantine, run_dir, scra
 
     # ---------------- evidence
     ev = {
-        "property_id": prop, "tier": tier, "seed": args.seed, "level": "exploration",
+        "property_id": prop, "tier": tier, "seed": args.seed, "level": cfg.get("manifest", {}).get("category", "exploration"),
         "coverage": {
             "evaluations": total_eval, "cases": total_cases, "distinct_nontrivial": distinct,
             "rule": cfg["rule"], "samples": samples[:8], "classes": dict(sorted(labels.items())),
